@@ -91,18 +91,28 @@ def body_factory(tier, known):
                     'args': {'branch': 'development/%d.0' % (
                         max(v[0] for v in vs) + 1)}})
                 hist.flags.add('c08_directed_create')
-        hot_ = [b for b in hist.world.hot if b in hist.world.heads()]
-        if hot_ and data.draw(st.integers(0, 2), label='recycle') == 0:
-            # a hotfix branch is archived, created again (legal: its archive
-            # tag has another name than its version), receives a merge and
-            # is deleted a second time: the old archive tag is not on the
-            # new tip
+        if data.draw(st.integers(0, 3), label='recycle') <= 1 and \
+                hist.world.chain:
+            # a hotfix branch is created, archived, created again (legal:
+            # its archive tag has another name than its version), receives
+            # a merge and is deleted a second time: the old archive tag is
+            # not on the new tip
             from vf.sim.world import AUTHOR, PEER1, PEER2
-            hb = hot_[data.draw(st.integers(0, len(hot_) - 1), label='hb')]
-            for kind_ in ('delete_branch', 'create_branch'):
-                hist.apply({'op': 'admin', 'kind': kind_,
-                            'args': {'branch': hb}})
+            low_ = hist.world.chain[0]
+            hb = 'hotfix/%s.3' % low_.split('/')[1] if low_.count('.') \
+                else 'hotfix/%s.0.3' % low_.split('/')[1]
+            from_ = hist.world.heads().get(low_)
+
+            def admin_(kind_, **args_):
+                hist.apply({'op': 'admin', 'kind': kind_, 'args': args_})
                 hist.apply({'op': 'drain'})
+            # upstream's convention: the release the hotfix branch starts
+            # from is tagged x.y.z.0 (by the release manager)
+            hist.apply({'op': 'third', 'action': {
+                'kind': 'new_tag', 'name': hb.split('/')[1] + '.0'}})
+            admin_('create_branch', branch=hb)
+            admin_('delete_branch', branch=hb)
+            admin_('create_branch', branch=hb)
             if hb in hist.world.heads() and not hist.violations:
                 hist.apply({'op': 'open_pr', 'src': 'bugfix/TEST-77-hfx',
                             'dst': hb, 'author': AUTHOR, 'base_back': 0})
@@ -124,11 +134,8 @@ def body_factory(tier, known):
                                 not n_.startswith('q/w/')):
                             hist.apply({'op': 'commit_event',
                                         'sel': {'ref': q_}})
-                for kind_ in ('delete_queues', 'delete_branch'):
-                    hist.apply({'op': 'admin', 'kind': kind_,
-                                'args': {'branch': hb}
-                                if kind_ == 'delete_branch' else {}})
-                    hist.apply({'op': 'drain'})
+                admin_('delete_queues')
+                admin_('delete_branch', branch=hb)
                 hist.flags.add('c08_hotfix_recycled')
         while len(hist.steps) < n + 40 * placed_jobs and not stop and \
                 len(hist.steps) < 400:
